@@ -182,9 +182,9 @@ func run(c Case) vh.Case {
 		tags["gen:"+c.Origin] = true
 	}
 	if c.Conc > 0 {
-		tr = runConcurrent(c, p)
-		tags["concurrent"] = true
-	} else {
+		return runConc(c, p)
+	}
+	{
 		for _, o := range c.Ops {
 			out := safeDo(p, o)
 			tr = append(tr, vh.Pair(opCoq(o), out))
@@ -246,7 +246,10 @@ func main() {
 			panic(err)
 		}
 		k := kinds[c.Kind]
-		vh.Emit(cfg, c.Kind, header(k), footer(k), []vh.Case{run(c)}, nil)
+		if c.Conc > 0 {
+			k = kinds["concurrent"]
+		}
+		vh.Emit(cfg, k.name, header(k), footer(k), []vh.Case{run(c)}, nil)
 		return
 	}
 	// corpus first: one stream per kind, named corpus_<kind>
